@@ -16,7 +16,7 @@ Clauses (one obligation each)
     discrete-methods-identical-for-every-num-threads
         inside_outside / maximization x {logarithmic, linear}: num_threads in {1, 2, 4} give the fingerprint of
         num_threads=None byte for byte (2 and 4 go through multiprocessing.Pool.imap_unordered); thorough also runs
-        num_threads=2 inside a fresh interpreter with a random hash seed.
+        num_threads=2 inside a fresh interpreter with a random hash seed (first 48 discrete jobs).
     prior-reuse-matches-fresh-prior
         ONE prior object P = build_prior_grid(ts, ...) is passed to a sequence of calls that alternates probability
         spaces and methods (io/log, io/lin, max/log, io/lin, max/lin, io/log); each result is compared with the same
@@ -327,9 +327,9 @@ def run(req, rep):
         hashseeds = ["0", "4242", "random"]
         n_threads_inputs, n_reuse_inputs, n_repeats = 2, 4, 2
     rep.space = ("tsdate.date on small tree sequences x method configurations; repeated in process, in fresh "
-                 "interpreters with different PYTHONHASHSEED, with different num_threads, and with a reused prior object")
-    rep.bound = (f"{len(ins)} inputs (<= 24 nodes, <= 80 mutations) x 4-6 configurations; {n_repeats} in-process calls; "
-                 f"fresh interpreters with PYTHONHASHSEED in {hashseeds}; num_threads in [None, 1, 2, 4] on "
+                 "interpreters with different PYTHONHASHSEED, with different num_threads, and with a reused prior")
+    rep.bound = (f"{len(ins)} inputs (<= 24 nodes, <= 80 mutations) x 4-6 configurations; {n_repeats} in-process "
+                 f"calls; fresh interpreters with PYTHONHASHSEED in {hashseeds}; num_threads in [None, 1, 2, 4] on "
                  f"{n_threads_inputs} inputs; prior reuse over {len(REUSE_SEQUENCE)} alternating calls on "
                  f"{n_reuse_inputs} inputs; seed {seed}")
     rep.exhaustive = False
@@ -355,7 +355,7 @@ def run(req, rep):
         thread_proc = None
         if thorough:
             tjobs = [dict(j, kwargs=dict(j["kwargs"], num_threads=2)) for j in jobs
-                     if j["method"] != "variational_gamma"]
+                     if j["method"] != "variational_gamma"][:48]  # one Pool per job: keep it to a minute or two
             tspec = os.path.join(tmp, "spec_threads.json")
             json.dump({"jobs": tjobs}, open(tspec, "w"))
             thread_proc = launch_worker(tspec, "random")
